@@ -3,7 +3,8 @@
   recursive number partitioning (`rnp`, at most four bins), relative to two facts about the 2-way complete
   Karmarkar–Karp sub-routine that are stated here as hypotheses and proved elsewhere:
 
-  * `Ckk2Optimal`     — `ckk … 2 …` returns a 2-way partition of minimum difference;
+  * `Ckk2Optimal`     — the 2-way search that `snp`/`rnp` call (`ckk2`, i.e. `ckkF … 2 …`: `optimal` after fix
+                        F11) returns a 2-way partition, and it is of minimum difference;
   * `CkkGenComplete`  — the 2-way generator `ckkGen … 2 … (some d)` yields every 2-way split of difference `< d`
                         (used by `rnp` with four bins only).
 
@@ -30,10 +31,18 @@ open Prtpy.SNPProofs (binSum_nil binSum_cons)
 
 variable {α : Type}
 
-/-- Hypothesis: the 2-way complete Karmarkar–Karp search returns a partition of minimum difference. -/
+/-- Hypothesis: the 2-way complete Karmarkar–Karp search (`ckkF`, the code after fix F11) returns a partition, of
+    minimum difference.  (Before F11 this was stated on `ckk` and the validity half was taken from
+    `CKKValid.ckk_isPartition`; the validity of `ckkF` is proved downstream of this file, in PrtpyProofs/CKKF.lean,
+    so it is part of the hypothesis now.  Discharged by `RNPF.ckk2Optimal` in PrtpyProofs/CKKFSwitch.lean.) -/
 def Ckk2Optimal (v nm : α → Nat) [BEq α] : Prop :=
-  ∀ (items : List α) (fuel : Nat) (b : Bins α), items ≠ [] → ckk v nm 2 true items fuel = .ok b →
-    IsOptimalValue .minDiff 2 (items.map v) (Objective.minDiff.value b.sums false)
+  ∀ (items : List α) (fuel : Nat) (b : Bins α), items ≠ [] → ckkF v nm 2 true items fuel = .ok b →
+    IsPartition v items 2 b ∧
+      IsOptimalValue .minDiff 2 (items.map v) (Objective.minDiff.value b.sums false)
+
+/-- the validity half of `Ckk2Optimal` -/
+theorem Ckk2Optimal.valid {v nm : α → Nat} [BEq α] (h : Ckk2Optimal v nm) : SNPProofs.CkkValid v nm :=
+  fun items fuel b hne hb => (h items fuel b hne hb).1
 
 /-! ### arithmetic: sums, spread, the window lemma -/
 
@@ -179,7 +188,7 @@ theorem ckk2_spec {v nm : α → Nat} [BEq α] (hckk : Ckk2Optimal v nm) {items 
   split at h
   · cases h
   · rename_i hne
-    exact ⟨CKKValid.ckk_isPartition (by omega) h, hckk items fuel two (by simpa using hne) h⟩
+    exact hckk items fuel two (by simpa using hne) h
 
 /-- a list of `k` bins holding exactly `items`, as a partition -/
 theorem lists_isPartition (v : α → Nat) {items : List α} {L : List (List α)} {k : Nat} (hl : L.length = k)
@@ -393,7 +402,7 @@ theorem spread_one_bin {v : α → Nat} {items : List α} {b : Bins α} (h : IsP
 theorem snp_optimal {v nm : α → Nat} [BEq α] [LawfulBEq α] (hckk : Ckk2Optimal v nm) {k : Nat} {items : List α}
     {fuel : Nat} {b : Bins α} (hk : 0 < k) (hne : items ≠ []) (h : snp v nm k true items fuel = .ok b) :
     IsOptimalValue .minDiff k (items.map v) (Objective.minDiff.value b.sums false) := by
-  refine optimal_of_le (CKKValid.snp_isPartition' hk hne h) ?_
+  refine optimal_of_le (SNPProofs.snp_isPartition (CKKValid.kkValid v) hckk.valid hk hne h) ?_
   intro L hl hp
   unfold snp at h
   cases hb : kk v k items with
@@ -777,7 +786,7 @@ theorem rnp_optimal {v nm : α → Nat} [BEq α] [LawfulBEq α] (hckk : Ckk2Opti
     {k : Nat} {items : List α} {fuel : Nat} {b : Bins α} (hk : 0 < k) (hk4 : k ≤ 4) (hne : items ≠ [])
     (h : rnp v nm k true items fuel = .ok b) :
     IsOptimalValue .minDiff k (items.map v) (Objective.minDiff.value b.sums false) := by
-  refine optimal_of_le (CKKValid.rnp_isPartition hk (by omega) hne h) ?_
+  refine optimal_of_le (CKKValid.rnp_isPartition_of hckk.valid hk (by omega) hne h) ?_
   intro L hl hp
   unfold rnp at h
   cases hb : kk v k items with
